@@ -28,10 +28,14 @@ RULE = ("Metamorphic relations between the results (AST, pickles, errors) of a d
         "plus exactly that comment at that line, column 1; final line break added/removed: AST equal.  Applied at EVERY admissible "
         "position of corpus, rendered (W2), fault-injected (W3) and noisy (W4) documents whose carriage returns occur only in CRLF "
         "pairs.  Admissibility is decided from the kinds the original parse delivered to the builder (and, for blank insertion, "
-        "from the kind the inserted line received).  Distinct = (document hash, transformation, position).")
+        "from the kind the inserted line received).  Also: documents with byte-order marks, zero-width/no-break blanks, Unicode "
+        "line separators, C0/C1 controls and NUL at the start, at line starts/ends and inside words (string vs file above all); "
+        "documents in which one line of each kind — delivered or reported as unexpected — has exactly n characters, n = 1..200 and "
+        "around 256/512/1024, with 1..4 trailing blanks or tabs, LF and CRLF, and 1..4 blanks of indentation; documents with many "
+        "identical lines.  Distinct = (document hash, transformation, position).")
 ASSUMPTIONS = ["domain: documents whose CR occur only in CRLF pairs; file loading skipped for texts that cannot be encoded as UTF-8",
                "kinds of lines are those the original parse delivered to the builder (recorded by the build probe); lines that were reported as errors or never reached are not transformed"]
-DECIDING = ["pairs_compared", "rel.crlf", "rel.file", "rel.trailing", "rel.indent", "rel.blank", "rel.comment", "rel.final_newline"]
+DECIDING = ["pairs_compared", "edge_documents", "long_line_documents", "rel.crlf", "rel.file", "rel.trailing", "rel.indent", "rel.blank", "rel.comment", "rel.final_newline"]
 KW = {"FeatureLine", "RuleLine", "BackgroundLine", "ScenarioLine", "ExamplesLine", "StepLine", "TagLine", "TableRow", "DocStringSeparator"}
 COMMENT = "   #inserted comment \U0001F600"
 
@@ -283,7 +287,101 @@ def plan(tier, seed):
     specs += shards("docs", 160 if q else 12000, 8 if q else 200, seed, budget=b)
     specs += shards("noisy", 200 if q else 6000, 20 if q else 300, seed, budget=b)
     specs += shards("faulted", 80 if q else 4000, 8 if q else 100, seed, budget=b)
+    specs += shards("edges", len(EDGE_CHARS) * len(EDGE_BASES) * 4, 40, seed, budget=b)
+    lengths = list(range(1, 201)) + [255, 256, 257, 511, 512, 513, 1023, 1024, 1025]
+    for k in range(0, len(lengths), 14):
+        specs.append({"family": "long_lines", "lengths": lengths[k:k + 14], "seed": seed, "n": 14, "budget": b})
     return specs
+
+
+# characters that some layer might treat specially although Gherkin does not: byte-order marks, zero-width and no-break
+# blanks, Unicode line/paragraph separators and the C0/C1 controls that str.splitlines() splits on, NUL
+EDGE_CHARS = ["\ufeff", "\ufffe", "\u200b", "\xa0", "\u2028", "\u2029", "\x85", "\x0b", "\x0c", "\x1c", "\x1d", "\x1e", "\x00", "\x1a"]
+EDGE_BASES = [
+    "Feature: f\n  Scenario: s\n    Given x\n      | a | b |\n    Then y\n",
+    "# language: fr\nFonctionnalité: f\n  @t1 @t2\n  Scénario: s\n    Soit x\n      \"\"\"\n      doc\n      \"\"\"\n",
+    "Feature: f\n  Scenario: s\n    Given x\n      | a |\n  junk line\n  Examples:\n",
+    "@a\nFeature: f\n\n  some description\n\n  Rule: r\n    Example: e\n      * z\n",
+]
+
+
+def edge_document(i):
+    """EDGE_BASES[b] with EDGE_CHARS[c] inserted at the very start / at the start of a line / at the end of a line /
+    inside a word."""
+    where = i % 4
+    c = EDGE_CHARS[(i // 4) % len(EDGE_CHARS)]
+    base = EDGE_BASES[(i // (4 * len(EDGE_CHARS))) % len(EDGE_BASES)]
+    lines = base.split("\n")[:-1]
+    k = (i * 7) % len(lines)
+    if where == 0:
+        return c + base
+    if where == 1:
+        lines[k] = c + lines[k]
+    elif where == 2:
+        lines[k] = lines[k] + c
+    else:
+        m = len(lines[k]) - 1
+        lines[k] = lines[k][:m] + c + lines[k][m:]
+    return "\n".join(lines) + "\n"
+
+
+def long_line_documents(n):
+    """Documents in which one line has exactly n characters after trimming: a free-text line and a misplaced keyword line
+    that are reported as unexpected (their text is quoted in the message), and accepted lines of every kind."""
+    fill = lambda k: ("x" * 9 + " ") * (k // 10) + "y" * (k % 10) if k > 0 else ""
+    fit = lambda prefix: prefix + fill(n - len(prefix)).rstrip().ljust(n - len(prefix), "z") if n >= len(prefix) else None
+    out = []
+    junk = fill(n).rstrip().ljust(n, "z")
+    out.append(("free text after a table row", "Feature: f\n  Scenario: s\n    Given x\n      | a |\n  %s\n    Then y\n" % junk, 5, None))
+    t = fit("Background: ")
+    if t:
+        out.append(("misplaced Background line", "Feature: f\n  Scenario: s\n    Given x\n  %s\n    Given y\n" % t, 4, "BackgroundLine"))
+    t = fit("Examples: ")
+    if t:
+        out.append(("misplaced Examples line", "Feature: f\n  Background:\n    Given x\n    %s\n      | a |\n" % t, 4, "ExamplesLine"))
+    t = fit("Scenario: ")
+    if t:
+        out.append(("long scenario name", "Feature: f\n  %s\n    Given x\n" % t, 2, "ScenarioLine"))
+    t = fit("Given ")
+    if t:
+        out.append(("long step", "Feature: f\n  Scenario: s\n    %s\n" % t, 3, "StepLine"))
+    t = fit("| ")
+    if t and n >= 5:
+        out.append(("long row", "Feature: f\n  Scenario: s\n    Given x\n      %s |\n" % t[:-2], 4, "TableRow"))
+    t = fit("@")
+    if t:
+        out.append(("long tag", "Feature: f\n  %s\n  Scenario: s\n    Given x\n" % t.replace(" ", "_"), 2, "TagLine"))
+    return out
+
+
+def check_long_line(what, lf, line_no, kind, M, case):
+    """check_document plus, for the line of known kind at line_no (delivered or reported as unexpected): 1..4 trailing blanks
+    and 1..3 blanks of extra indentation, LF and CRLF."""
+    check_document(lf, M, case, budget=case.get("budget", 40))
+    if kind is None:
+        return
+    base = run(lf)
+    lines = lf.split("\n")
+    viol = lambda rel, detail: M.violation("C16." + rel, dict(detail, relation=rel, line_kind=kind), dict(case, relation=rel, text=lf))
+    for k in (1, 2, 3, 4):
+        for blanks in (" " * k, "\t" * k):
+            L2 = list(lines)
+            L2[line_no - 1] += blanks
+            for nl in ("\n", "\r\n"):
+                r = run("\n".join(L2).replace("\n", nl))
+                M.count("rel.trailing")
+                M.count("pairs_compared")
+                if r[:3] != base[:3]:
+                    viol("trailing", {"what": "%d trailing blank(s) on a %s line (%s) change the result" % (k, kind, what),
+                                      "base": short(base[1], 240), "got": short(r[1], 240)})
+        L3 = list(lines)
+        L3[line_no - 1] = " " * k + L3[line_no - 1]
+        r = run("\n".join(L3))
+        M.count("rel.indent")
+        M.count("pairs_compared")
+        if not same(r, base, cols=True):
+            viol("indent", {"what": "indenting a %s line (%s) by %d changes more than columns" % (kind, what, k),
+                            "base": short(strip_loc(base[1], False, True), 240), "got": short(strip_loc(r[1], False, True), 240)})
 
 
 def run_shard(spec, M):
@@ -298,12 +396,22 @@ def run_shard(spec, M):
                 M.count("skipped_lone_cr")
                 continue
             check_document(src.replace("\r\n", "\n"), M, {"kind": "text", "family": "corpus", "path": g["path"]}, budget=spec.get("budget", 400))
+    elif fam == "long_lines":
+        for n in spec["lengths"]:
+            for what, lf, line_no, kind in long_line_documents(n):
+                M.count("long_line_documents")
+                check_long_line(what, lf, line_no, kind, M, {"kind": "long_line", "family": fam, "n": n, "what": what, "line_no": line_no,
+                                                             "line_kind": kind, "budget": spec.get("budget", 40)})
     else:
         for i in range(spec["start"], spec["start"] + spec["n"]):
             r = rng(seed, ID, fam, i)
             if fam == "docs":
-                R = docmodel.render(r, size=r.choice(["small", "medium"]), nl="\n", special=0.25 if i % 2 else 0.0, deep=(i % 4 == 1))
+                R = docmodel.render(r, size=r.choice(["small", "medium"]), nl="\n", special=0.25 if i % 2 else 0.0, deep=(i % 4 == 1),
+                                    dup=0.7 if i % 4 == 3 else 0.0)
                 text = R.text
+            elif fam == "edges":
+                text = edge_document(i)
+                M.count("edge_documents")
             elif fam == "noisy":
                 text = noisy.text_of(noisy.gen(r, 25), final=r.random() < 0.8)
             else:
@@ -318,4 +426,7 @@ def run_shard(spec, M):
 
 
 def replay(case, M):
-    check_document(case["text"], M, case)
+    if case.get("kind") == "long_line":
+        check_long_line(case["what"], case["text"], case["line_no"], case["line_kind"], M, case)
+    else:
+        check_document(case["text"], M, case)
